@@ -62,10 +62,19 @@ def judge_one(case, f):
     out = []
     try:
         fg = full_grid(b, o, t, factor=f, cartesian=case["cartesian"])
+        getters = {"adjacency": fg.get_full_adjacency, "borders": fg.get_full_borders, "distances": fg.get_full_distances,
+                   "volumes": lambda: np.asarray(fg.get_total_volumes(), dtype=float),
+                   "array": lambda: np.asarray(fg.get_full_grid_as_array())}
+        order = case.get("order") or sorted(getters)
         with quiet():
-            adj, bor, dis = fg.get_full_adjacency(), fg.get_full_borders(), fg.get_full_distances()
-            vol = np.asarray(fg.get_total_volumes(), dtype=float)
-            arr = np.asarray(fg.get_full_grid_as_array())
+            first = {name: getters[name]() for name in order}       # generated getter order ...
+            again = {name: getters[name]() for name in reversed(order)}   # ... and every getter once more
+        adj, bor, dis, vol, arr = first["adjacency"], first["borders"], first["distances"], first["volumes"], first["array"]
+        for name in order:
+            a, b2 = first[name], again[name]
+            a, b2 = (dense(a), dense(b2)) if hasattr(a, "tocoo") else (a, b2)
+            if a.shape != b2.shape or not np.array_equal(np.asarray(a, dtype=float), np.asarray(b2, dtype=float)):
+                return [("history", f"{name} of the same full grid differ between the first and a second query (order {order})")]
         pg = position_grid(o, t, cartesian=case["cartesian"])
         with quiet():
             P_adj = dense(pg.get_adjacency_of_position_grid()).astype(float)
@@ -163,7 +172,8 @@ def _shard(arg):
         f2 = draw(st.sampled_from([None, None, 1.0, 3.0, 0.125]))
         return {"b_alg": draw(st.sampled_from(["cube4D", "randomQ"])), "n_b": n_b,
                 "o_alg": draw(st.sampled_from(["ico", "cube3D", "randomS"])), "n_o": n_o, "radii": radii,
-                "factor": f, "factor2": f2 if f2 != f else None, "cartesian": cart}
+                "factor": f, "factor2": f2 if f2 != f else None, "cartesian": cart,
+                "order": list(draw(st.permutations(["adjacency", "array", "borders", "distances", "volumes"])))}
 
     def builder(res, fail):
         @given(cases())
